@@ -160,6 +160,9 @@ func (r *run) client(c, k int, abrupt bool, rr *rand.Rand, until <-chan struct{}
 		r.w.Emit(vt.Ev{"e": "Write", "c": c, "i": i})
 		conn.SetWriteDeadline(time.Now().Add(2 * time.Second))
 		if _, err := conn.Write(b); err != nil {
+			if until == nil && r.proto != "udp" && !r.stopRet.Load() {
+				r.w.Emit(vt.Ev{"e": "WriteFailed", "c": c}) // no Stop in this scenario: the collector dropped a healthy connection
+			}
 			return
 		}
 		if r.proto == "udp" && i == 1 {
@@ -387,12 +390,15 @@ func main() {
 	}
 	for _, proto := range []string{"tcp", "udp"} {
 		for k := 0; k < nE; k++ {
-			n := 3
+			n, streaming := 3, 3
+			if proto == "tcp" {
+				n, streaming = 4, 3 // client 4 breaks off mid-message
+			}
 			arm(w, "scenario E "+proto)
 			ru := start(w, proto, n)
 			ru.shared.Store(true)
 			var wg sync.WaitGroup
-			for c := 1; c <= n; c++ {
+			for c := 1; c <= streaming; c++ {
 				wg.Add(1)
 				go func(c int) {
 					defer wg.Done()
@@ -410,6 +416,7 @@ func main() {
 						}
 						ru.w.Emit(vt.Ev{"e": "Write", "c": c, "i": i})
 						if _, err := conn.Write(b); err != nil {
+							ru.w.Emit(vt.Ev{"e": "WriteFailed", "c": c}) // the collector dropped a healthy connection
 							return
 						}
 						if i == 1 {
@@ -425,6 +432,33 @@ func main() {
 					ru.w.Emit(vt.Ev{"e": "ClientClose", "c": c})
 				}(c)
 				evals += 300
+			}
+			if proto == "tcp" {
+				// one more exporter on the same observation domain and template id breaks off in the middle of a message
+				// while the others are streaming: their sessions (and the template they all use) are unaffected
+				wg.Add(1)
+				go func(c int) {
+					defer wg.Done()
+					conn, err := ru.dial()
+					if err != nil {
+						return
+					}
+					for i := 1; i <= 3; i++ {
+						var b []byte
+						if i == 1 {
+							b = absv.Message(1, uint32(100000*c+i), 1, 2, absv.TemplateBody(256, []absv.Spec{{ID: 4, Len: 1}, {ID: 82, Len: 65535}}))
+						} else {
+							b = absv.Message(2, uint32(100000*c+i), 1, 256, []byte{byte(i), 3, byte(c), byte(i >> 8), byte(i)})
+						}
+						ru.w.Emit(vt.Ev{"e": "Write", "c": c, "i": i})
+						conn.Write(b)
+						time.Sleep(2 * time.Millisecond)
+					}
+					b := absv.Message(2, uint32(100000*c+4), 1, 256, []byte{4, 3, byte(c), 0, 4})
+					ru.w.Emit(vt.Ev{"e": "WriteHalf", "c": c, "i": 4})
+					conn.Write(b[:len(b)-3])
+					conn.Close()
+				}(n)
 			}
 			wg.Wait()
 			ru.quiesce()
